@@ -33,11 +33,22 @@ def gen_cfg(rng):
         mb = cfg["m_breaks"]
         if len(mb) >= 3:
             mb[-2] = rng.choice([25.0, 30.0, 40.0, 60.0])
-            if mb[-2] <= mb[-3]:
+            if not (mb[-3] < mb[-2] < mb[-1]):
                 mb[-2] = 0.5 * (mb[-3] + mb[-1])
     if rng.random() < 0.15:
         # few wide bins
         cfg["nbins"] = [rng.randint(1, 2) for _ in cfg["a_slopes"]]
+    if rng.random() < 0.3:
+        # non-default options of the analytic BH prescriptions (both models must honour them alike)
+        if rng.random() < 0.5:
+            cfg["kw"]["BH_IFMR_method"] = "linear"
+            cfg["kw"]["BH_IFMR_kwargs"] = {"slope": rng.choice([0.3, 0.4, 0.5]), "scale": rng.choice([0.7, 1.0, 0.0]),
+                                           "m_lower": rng.choice([19, 22, 24, 26])}
+        else:
+            cfg["kw"]["BH_IFMR_method"] = "powerlaw"
+            cfg["kw"]["BH_IFMR_kwargs"] = {"m_lower": rng.choice([19, 22, 26]), "scale": rng.choice([14, 10])}
+        if cfg["m_breaks"][-1] <= 40:
+            cfg["m_breaks"][-1] = 100.0
     r = rng.random()
     if r < 0.35:
         cfg["kick"] = {"kick_method": "sigmoid", "kick_slope": rng.choice([1, 0.5, 0.2, 2]), "kick_scale": rng.choice([20, 10, 30, 5])}
@@ -50,6 +61,8 @@ def gen_cfg(rng):
 
 def pop_kwargs(cfg):
     kw = {k: v for k, v in cfg["kw"].items() if k in ("binning_method", "BH_IFMR_method")}
+    if "BH_IFMR_kwargs" in cfg["kw"]:
+        kw["BH_IFMR_kwargs"] = dict(cfg["kw"]["BH_IFMR_kwargs"])      # a fresh dict per construction
     return kw
 
 
@@ -78,7 +91,7 @@ def build_full(cfg, age, ode=None):
 def shim(cfg):
     """the sub-objects the model is described with, rebuilt from the configuration"""
     kw = pop_kwargs(cfg)
-    im = ifmr.IFMR(cfg["FeH"], BH_method=kw.get("BH_IFMR_method", "banerjee20"))
+    im = ifmr.IFMR(cfg["FeH"], BH_method=kw.get("BH_IFMR_method", "banerjee20"), BH_kwargs=kw.get("BH_IFMR_kwargs"))
     imf = PowerLawIMF(m_break=cfg["m_breaks"], a=cfg["a_slopes"], N0=cfg["N0"], ext="zeros")
     with warnings.catch_warnings():
         warnings.simplefilter("ignore")
@@ -146,10 +159,12 @@ def worker(job):
         f = build_full(cfg, p.age)
         res["full"] = {"N": f.Nr.BH[0].tolist(), "M": f.Mr.BH[0].tolist(), "bins": real.bins_flat(f.massbins.bins.BH),
                        "converged": bool(f.converged)}
-        pt, _ = build_pop(cfg, ode=TIGHT)
+        pt, rect = build_pop(cfg, ode=TIGHT)
         ft = build_full(cfg, pt.age, ode=TIGHT)
         res["tight"] = {"N": pt.N.tolist(), "M": pt.M.tolist(), "fN": ft.Nr.BH[0].tolist(), "fM": ft.Mr.BH[0].tolist(),
-                        "Ns_lost": float(pt.Ns_lost), "Ms_lost": float(pt.Ms_lost), "converged": bool(ft.converged)}
+                        "Ns_lost": float(pt.Ns_lost), "Ms_lost": float(pt.Ms_lost),
+                        # the BH-only class has no convergence flag: ask the (wrapped) solver itself whether the tightened run succeeded
+                        "converged": bool(ft.converged) and bool(rect._ode.successful())}
         # kicks
         if cfg.get("kick"):
             try:
@@ -321,6 +336,8 @@ def check_pop(res):
             Mab += A * pk1(a + 1, lo, u)
             k += 1
     for tag, nl, ml, rel in (("default", res["Ns_lost"], res["Ms_lost"], 5e-2), ("tightened", res["tight"]["Ns_lost"], res["tight"]["Ms_lost"], 1e-5)):
+        if tag == "tightened" and not res["tight"]["converged"]:
+            continue
         if abs(nl - Nab) > rel * Nab + NMIN * k + 1e-6:
             return {"clause": "stars lost = IMF number above the final turn-off mass", "tolerance": tag, "Ns_lost": repr(nl), "imf": repr(Nab)}
         if abs(ml - Mab) > rel * Mab + NMIN * k * ms[-1] + 1e-6:
